@@ -5,6 +5,8 @@
   location, with an error citing the rule, is checked on the implementation (`checks/C04.py`).
 -/
 import Cellml.Valid.Model
+import Cellml.Valid.Walk
+import Cellml.Generated.MathWalk
 namespace Cellml.Props.C04
 open Cellml.Valid
 
@@ -172,5 +174,36 @@ theorem identifier_other (c : Char) (rest : List Char) (h : isDigit c = false) (
   simp only [h, Bool.false_eq_true, if_false, hall]
 
 example : identifier "a_1".toList = .ok ∧ identifier "1a".toList = .beginsWithDigit ∧ identifier "a-b".toList = .notLatinAlphanumeric ∧ identifier [] = .empty := by decide
+
+/-! ### the arity / `cn` format pass over MathML reaches every element (table regenerated from validator.cpp) -/
+
+/-- T-tie: in the table of branches extracted from `validateMathMLElementsChildrenAndSiblings`, every element that can
+    have MathML children (apply, piecewise, piece, otherwise, bvar, degree, logbase) has a branch that descends into all
+    the children it insists on -/
+theorem math_walk_table_covers : tableCovers Cellml.Generated.MathWalk.rows = true := by decide
+
+/-- with such a table a tree in which every reached element with children is a container and raises no
+    number-of-children issue is `Accepted` … -/
+theorem accepted_of_table (rows : List Row) (ht : tableCovers rows = true) (t : Tree)
+    (h : ∀ name kids, Reached rows t (.node name kids) → kids ≠ [] →
+      name ∈ containers ∧ ∀ r ∈ rows, r.1 = name → r.2.1.holds kids.length = true) : Accepted rows t := by
+  intro name kids hr hne
+  obtain ⟨hc, hall⟩ := h name kids hr hne
+  simp only [tableCovers, List.all_eq_true, List.any_eq_true, Bool.and_eq_true, beq_iff_eq] at ht
+  obtain ⟨r, hrm, hn, hcov⟩ := ht name hc
+  exact ⟨r, hrm, hn, hcov, hall r hrm hn⟩
+
+/-- … and then **no element escapes the pass**: every element of the tree, at any depth and in any position (operand,
+    value or condition of a piece, otherwise, degree, logbase, bound variable), is reached and so has its local rule
+    (number of siblings, `cn` format, non-empty `ci`) applied -/
+theorem math_walk_complete (t : Tree)
+    (h : ∀ name kids, Reached Cellml.Generated.MathWalk.rows t (.node name kids) → kids ≠ [] →
+      name ∈ containers ∧ ∀ r ∈ Cellml.Generated.MathWalk.rows, r.1 = name → r.2.1.holds kids.length = true) :
+    ∀ s, Sub t s → Reached Cellml.Generated.MathWalk.rows t s :=
+  all_reached _ t (accepted_of_table _ math_walk_table_covers t h)
+
+/-- a table in which the condition of a piece is not descended into does not cover -/
+example : tableCovers [("apply", .atLeast 1, .all), ("piecewise", .any, .all), ("piece", .exactly 2, .idx [0]), ("otherwise", .exactly 1, .idx [0]),
+    ("bvar", .any, .all), ("degree", .any, .all), ("logbase", .any, .all)] = false := by decide
 
 end Cellml.Props.C04
